@@ -14,7 +14,8 @@
 EXTENDS Integers, Sequences, TLC
 
 CONSTANTS N,          \* items the visit would deliver
-          MaxCalls    \* bound on consumer calls
+          MaxCalls,   \* bound on consumer calls
+          ErrClosesNext  \* TRUE = the code: Next() closes it.next also when the visit ended with an error
 
 VARIABLES cpc,         \* consumer: "idle" | "sendNext" | "recvItem"
           word,        \* calls made so far: "N" / "C"
@@ -24,35 +25,43 @@ VARIABLES cpc,         \* consumer: "idle" | "sendNext" | "recvItem"
           ppc,         \* producer: "first" | "sendItem" | "waitNext" | "defer" | "drain" | "done"
           pos,         \* items delivered so far
           got,         \* results of the Next() calls
-          pinned       \* the visit holds the version
+          pinned,      \* the visit holds the version
+          failAt,      \* 0: the visit succeeds; k > 0: loading item k fails (I/O error), the visit returns the error
+          errSet       \* it.err # nil
 
-vars == <<cpc, word, closed, nextClosed, itemsClosed, ppc, pos, got, pinned>>
+vars == <<cpc, word, closed, nextClosed, itemsClosed, ppc, pos, got, pinned, failAt, errSet>>
+
+\* items the visit delivers before it ends (normally or with the error)
+Eff == IF failAt = 0 THEN N ELSE failAt - 1
 
 Init == /\ cpc = "idle" /\ word = <<>> /\ closed = FALSE /\ nextClosed = FALSE /\ itemsClosed = FALSE
         /\ ppc = "first" /\ pos = 0 /\ got = <<>> /\ pinned = FALSE
+        /\ failAt \in 0..N /\ errSet = FALSE
 
 (* ------------------------------ consumer ------------------------------ *)
 \* Next(): if it.closed return false; it.next <- true; i, ok := <-it.items ...
 CallNext == /\ cpc = "idle" /\ Len(word) < MaxCalls /\ word' = Append(word, "N")
             /\ IF closed THEN cpc' = "idle" /\ got' = Append(got, 0)
                          ELSE cpc' = "sendNext" /\ got' = got
-            /\ UNCHANGED <<closed, nextClosed, itemsClosed, ppc, pos, pinned>>
+            /\ UNCHANGED <<closed, nextClosed, itemsClosed, ppc, pos, pinned, failAt, errSet>>
 
 \* Close(): if !it.closed { close(it.next); it.closed = true }
 CallClose == /\ cpc = "idle" /\ Len(word) < MaxCalls /\ word' = Append(word, "C")
              /\ IF closed THEN UNCHANGED <<closed, nextClosed>>
                           ELSE closed' = TRUE /\ nextClosed' = TRUE
-             /\ UNCHANGED <<cpc, itemsClosed, ppc, pos, got, pinned>>
+             /\ UNCHANGED <<cpc, itemsClosed, ppc, pos, got, pinned, failAt, errSet>>
 
 \* i, ok := <-it.items with items closed: close(it.next); it.closed = true; return false
+\* (ErrClosesNext = FALSE: a variant that returns early on it.err without closing it.next)
 RecvClosedItems == /\ cpc = "recvItem" /\ itemsClosed
-                   /\ nextClosed' = TRUE /\ closed' = TRUE /\ cpc' = "idle" /\ got' = Append(got, 0)
-                   /\ UNCHANGED <<word, itemsClosed, ppc, pos, pinned>>
+                   /\ nextClosed' = IF errSet /\ ~ErrClosesNext THEN nextClosed ELSE TRUE
+                   /\ closed' = TRUE /\ cpc' = "idle" /\ got' = Append(got, 0)
+                   /\ UNCHANGED <<word, itemsClosed, ppc, pos, pinned, failAt, errSet>>
 
 (* ----------------------------- rendezvous ----------------------------- *)
 \* it.next <- true  meets  <-it.next  (first receive in iterate, the receive
 \* inside the visitor, or the drain loop)
-AfterNext == IF pos < N THEN "sendItem" ELSE "defer"
+AfterNext == IF pos < Eff THEN "sendItem" ELSE "defer"
 RvNext == /\ cpc = "sendNext" /\ ~nextClosed /\ ppc \in {"first", "waitNext", "drain"}
           /\ cpc' = "recvItem"
           /\ ppc' = IF ppc = "drain" THEN "drain" ELSE AfterNext
@@ -60,23 +69,25 @@ RvNext == /\ cpc = "sendNext" /\ ~nextClosed /\ ppc \in {"first", "waitNext", "d
           \* when the visitor has no further item
           /\ pinned' = IF ppc = "drain" THEN pinned
                        ELSE IF AfterNext = "defer" THEN FALSE ELSE TRUE
-          /\ UNCHANGED <<word, closed, nextClosed, itemsClosed, pos, got>>
+          \* the visit runs into the failing load: it returns the error (it.err)
+          /\ errSet' = IF ppc # "drain" /\ AfterNext = "defer" /\ failAt > 0 THEN TRUE ELSE errSet
+          /\ UNCHANGED <<word, closed, nextClosed, itemsClosed, pos, got, failAt>>
 
 \* it.items <- i  meets  <-it.items
 RvItem == /\ ppc = "sendItem" /\ cpc = "recvItem" /\ ~itemsClosed
           /\ pos' = pos + 1 /\ ppc' = "waitNext" /\ cpc' = "idle" /\ got' = Append(got, pos + 1)
-          /\ UNCHANGED <<word, closed, nextClosed, itemsClosed, pinned>>
+          /\ UNCHANGED <<word, closed, nextClosed, itemsClosed, pinned, failAt, errSet>>
 
 (* ------------------------------ producer ------------------------------ *)
 \* <-it.next returns !ok: the visitor returns false (or iterate returns at once)
 SeeClosed == /\ nextClosed /\ ppc \in {"first", "waitNext"}
              /\ ppc' = "defer" /\ pinned' = FALSE
-             /\ UNCHANGED <<cpc, word, closed, nextClosed, itemsClosed, pos, got>>
+             /\ UNCHANGED <<cpc, word, closed, nextClosed, itemsClosed, pos, got, failAt, errSet>>
 \* deferred: close(it.items); then drain it.next until it is closed
 Defer == /\ ppc = "defer" /\ itemsClosed' = TRUE /\ ppc' = "drain"
-         /\ UNCHANGED <<cpc, word, closed, nextClosed, pos, got, pinned>>
+         /\ UNCHANGED <<cpc, word, closed, nextClosed, pos, got, pinned, failAt, errSet>>
 DrainExit == /\ ppc = "drain" /\ nextClosed /\ ppc' = "done"
-             /\ UNCHANGED <<cpc, word, closed, nextClosed, itemsClosed, pos, got, pinned>>
+             /\ UNCHANGED <<cpc, word, closed, nextClosed, itemsClosed, pos, got, pinned, failAt, errSet>>
 
 Consumer == CallNext \/ CallClose \/ RecvClosedItems
 Producer == SeeClosed \/ Defer \/ DrainExit
@@ -98,10 +109,22 @@ Run(n, w, i, p, cl) ==     \* i: next call, p: items delivered, cl: closed
   ELSE IF p < n THEN <<p + 1>> \o Run(n, w, i + 1, p + 1, FALSE)
   ELSE <<0>> \o Run(n, w, i + 1, p, TRUE)
 Expected(n, w) == Run(n, w, 1, 0, FALSE)
+\* does the word run the visit into its end (a Next() call with all n items delivered and not closed)?
+RECURSIVE Ends(_, _, _, _, _)
+Ends(n, w, i, p, cl) ==
+  IF i > Len(w) THEN FALSE
+  ELSE IF w[i] = "C" THEN Ends(n, w, i + 1, p, TRUE)
+  ELSE IF cl THEN FALSE
+  ELSE IF p < n THEN Ends(n, w, i + 1, p + 1, FALSE)
+  ELSE TRUE
+ReachesEnd(n, w) == Ends(n, w, 1, 0, FALSE)
 
 (* ------------------------------ properties ---------------------------- *)
 \* between calls the results so far are exactly the sequential meaning
-ResultsOK == cpc = "idle" => got = Expected(N, word)
+\* (a failing visit is, for the consumer, a shorter one)
+ResultsOK == cpc = "idle" => got = Expected(Eff, word)
+\* Err() reports the error exactly when the consumer drove the visit into the failing load
+ErrOK == cpc = "idle" => (errSet <=> (failAt > 0 /\ ReachesEnd(Eff, word)))
 \* a send on a closed channel would panic in Go
 NoSendOnClosed == ~(cpc = "sendNext" /\ nextClosed)
 PinOK == pinned => ppc \in {"sendItem", "waitNext"}
